@@ -35,6 +35,9 @@ EXTRA = {
     "bx": dict(decl="bx: ::std::boxed::Box<dyn Bound + ::core::marker::Send>", arg="::std::boxed::Box::new(3i64)", ptr="::std::boxed::Box<dyn Bound + ::core::marker::Send>"),
     "sl": dict(decl="sl: &[u8]", arg="&[1u8, 2]", ptr="&'b [u8]", ref=True),
     "tu": dict(decl="tu: (i64, &str)", arg="(1, \"s\")", ptr="(i64, &'b str)", ref=True),
+    # a where-predicate that names 'static / a for<>-bound lifetime BEFORE a lifetime of the fn
+    "ws": dict(decl="r: &'b X, v: V", lts=["'b"], gen=["V"], where=["V: 'static + Lab<'b> + ::core::marker::Send"], arg="&x, 6i64", ptr="&'b X, i64", ref=True, no_ptr=True),
+    "wh": dict(decl="r: &'b X, v: V", lts=["'b"], gen=["V: ::core::marker::Send"], where=["for<'z> &'z V: Lab<'b>"], arg="&x, 6i64", ptr="&'b X, i64", ref=True, no_ptr=True),
     # two named lifetimes related by an outlives predicate: in the where clause / inline
     "lw": dict(decl="r: &'b X, r2: &'c X", lts=["'b", "'c"], where=["'c: 'b"], arg="&x, &x", ptr="&'b X, &'c X", ref=True, no_ptr=True),
     "li": dict(decl="r: &'b X, r2: &'c X", lts=["'b", "'c: 'b"], arg="&x, &x", ptr="&'b X, &'c X", ref=True, no_ptr=True),
@@ -71,8 +74,8 @@ def enumerate_states(tier):
             continue
         if R.get("needs") and R["needs"] not in w:
             continue
-        if len(set(w)) != len(w):
-            continue            # the same symbol twice would declare the same parameter / generic name twice
+        if len(set(w)) != len(w) or len([x for x in w if x in ("re", "rn", "lw", "li", "ws", "wh")]) > 1:
+            continue            # the same symbol twice (or two symbols sharing `r` / `'b`) would declare a name twice
         if R.get("elided") and any(EXTRA[x].get("ref") for x in w):
             continue            # elided output with two reference inputs is not Rust
         if o == "?Send" and "async" not in q:
@@ -81,7 +84,7 @@ def enumerate_states(tier):
             continue            # mock_api only switches unimock on with the crate feature; off it is covered by C04/C10
         if tier != "thorough" and feature and o in ("", "?Send") and q not in ("", "async"):
             continue
-        if tier != "thorough" and any(x in ("dp", "mb", "wl", "lw", "li", "dy", "fp", "cl", "bx", "sl", "tu") for x in w) and (o != "" or deps not in ("impl", "nodeps", "conc", "gi")):
+        if tier != "thorough" and any(x in ("dp", "mb", "wl", "lw", "li", "ws", "wh", "dy", "fp", "cl", "bx", "sl", "tu") for x in w) and (o != "" or deps not in ("impl", "nodeps", "conc", "gi")):
             continue            # the feature only matters through the mock options
         key = "g_%s_%s_%s_%s_%s_%s" % (deps, "_".join(w) or "0", {"": "s", "async": "a", "unsafe": "u", 'extern "C"': "e", 'unsafe extern "C"': "ue", "async unsafe": "au"}[q],
                                        r, {"": "p", "mock": "m", "mockall": "ma", "?Send": "ms"}[o], "fon" if feature else "foff")
@@ -139,6 +142,7 @@ def render(s):
     L = ["mod %s {" % key, "    use super::rt;",
          "    #[derive(Debug)] pub struct X(pub i64);", "    pub fn fpid(x: i64) -> i64 { x }",
          "    pub trait Bound { fn b(&self) -> i64; } impl Bound for i64 { fn b(&self) -> i64 { *self } }",
+         "    pub trait Lab<'l> {} impl<'l> Lab<'l> for i64 {} impl<'l, 'z> Lab<'l> for &'z i64 {}",
          "    pub trait Dep { fn num(&self) -> &i64; }",
          "    pub struct App { pub num: i64 }",
          "    impl Dep for App { fn num(&self) -> &i64 { &self.num } }",
